@@ -23,6 +23,7 @@ import (
 	"github.com/named-data/ndnd/fw/core"
 	"github.com/named-data/ndnd/fw/defn"
 	"github.com/named-data/ndnd/fw/dispatch"
+	"github.com/named-data/ndnd/fw/face"
 	"github.com/named-data/ndnd/fw/fw"
 	"github.com/named-data/ndnd/fw/table"
 	enc "github.com/named-data/ndnd/std/encoding"
@@ -95,6 +96,7 @@ func unhx(s string) []byte {
 // ---------------------------------------------------------------------------------------------------------------
 
 type sent struct {
+	thr   int
 	face  uint64
 	kind  string // I or D
 	name  string
@@ -108,6 +110,7 @@ type recFace struct {
 	scope defn.Scope
 	link  defn.LinkType
 	log   *[]sent
+	cur   *int // forwarding thread being drained
 }
 
 func (f *recFace) String() string          { return "recFace-" + strconv.FormatUint(f.id, 10) }
@@ -121,7 +124,7 @@ func (f *recFace) MTU() int                { return 8800 }
 func (f *recFace) State() defn.State       { return defn.Up }
 func (f *recFace) SendPacket(out dispatch.OutPkt) {
 	// what would go on the wire: the raw bytes of the packet as they are now (hop limit is patched in place)
-	s := sent{face: f.id, hop: "-", tok: hx(out.PitToken)}
+	s := sent{thr: *f.cur, face: f.id, hop: "-", tok: hx(out.PitToken)}
 	raw := append([]byte{}, out.Pkt.Raw...)
 	p, _, err := spec.ReadPacket(enc.NewBufferReader(raw))
 	if err != nil {
@@ -162,6 +165,8 @@ type world struct {
 	log     []sent
 	faces   map[uint64]*recFace
 	expired []uint32
+	cur     int
+	nthr    int
 	probeN  []string // names probed in the dead nonce list
 	probeX  []uint32
 	// bookkeeping for the generator
@@ -181,7 +186,7 @@ func configureOnce() {
 }
 
 func newWorld(w *bufio.Writer, nthreads int) *world {
-	wd := &world{w: w, faces: map[uint64]*recFace{}}
+	wd := &world{w: w, faces: map[uint64]*recFace{}, nthr: nthreads}
 	wd.t0 = time.Now()
 	core.ShouldQuit = false
 	table.CreateFIBTable("nametree")
@@ -229,7 +234,6 @@ func (wd *world) exec(line string) {
 	time.Sleep(time.Microsecond)
 	wd.log = wd.log[:0]
 	wd.expired = wd.expired[:0]
-	th := wd.threads[0]
 	switch f[0] {
 	case "face":
 		id, _ := strconv.ParseUint(f[2], 10, 64)
@@ -239,7 +243,7 @@ func (wd *world) exec(line string) {
 				sc = defn.Local
 			}
 			lt, _ := strconv.Atoi(f[4])
-			rf := &recFace{id: id, scope: sc, link: defn.LinkType(lt), log: &wd.log}
+			rf := &recFace{id: id, scope: sc, link: defn.LinkType(lt), log: &wd.log, cur: &wd.cur}
 			wd.faces[id] = rf
 			dispatch.AddFace(id, rf)
 		} else {
@@ -282,11 +286,16 @@ func (wd *world) exec(line string) {
 		time.Sleep(time.Duration(d))
 		wd.pf("ev sleep %s\n", f[1])
 	case "tick":
-		pc := th.VerifPitCs()
+		k := 0
+		if len(f) > 1 {
+			k, _ = strconv.Atoi(f[1])
+		}
+		wd.cur = k
+		pc := wd.threads[k].VerifPitCs()
 		<-pc.UpdateTimer()
 		now := wd.now()
 		pc.Update()
-		wd.pf("ev tick %d\n", now)
+		wd.pf("ev tick %d %d\n", k, now)
 		toks := make([]string, len(wd.expired))
 		for i, t := range wd.expired {
 			toks[i] = strconv.FormatUint(uint64(t), 10)
@@ -296,9 +305,14 @@ func (wd *world) exec(line string) {
 		}
 		wd.pf("pick expired %s\n", strings.Join(toks, ","))
 	case "sweep":
+		k := 0
+		if len(f) > 1 {
+			k, _ = strconv.Atoi(f[1])
+		}
+		wd.cur = k
 		now := wd.now()
-		th.VerifSweepDeadNonces()
-		wd.pf("ev sweep %d\n", now)
+		wd.threads[k].VerifSweepDeadNonces()
+		wd.pf("ev sweep %d %d\n", k, now)
 	case "int":
 		wd.doInterest(f, line)
 	case "data":
@@ -311,7 +325,7 @@ func (wd *world) exec(line string) {
 
 // int <face> <name> <cbp> <mbf> <nonce|-> <life_ms|-> <hop|-> <hints a;b|-> <tokhex|-> <nhf|->
 func (wd *world) doInterest(f []string, line string) {
-	face, _ := strconv.ParseUint(f[1], 10, 64)
+	inFace, _ := strconv.ParseUint(f[1], 10, 64)
 	name := parseName(f[2])
 	cfg := &ndn.InterestConfig{CanBePrefix: f[3] == "1", MustBeFresh: f[4] == "1"}
 	if opt(f[5]) {
@@ -340,7 +354,7 @@ func (wd *world) doInterest(f []string, line string) {
 	if err != nil || p.Interest == nil {
 		panic(fmt.Sprint("interest did not parse: ", err))
 	}
-	pkt := &defn.Pkt{Name: p.Interest.NameV, L3: p, Raw: raw, IncomingFaceID: utils.IdPtr(face)}
+	pkt := &defn.Pkt{Name: p.Interest.NameV, L3: p, Raw: raw, IncomingFaceID: utils.IdPtr(inFace)}
 	if opt(f[9]) {
 		pkt.PitToken = unhx(f[9])
 	}
@@ -349,12 +363,10 @@ func (wd *world) doInterest(f []string, line string) {
 		pkt.NextHopFaceID = utils.IdPtr(nh)
 	}
 	now := wd.now()
-	// dispatch exactly like linkServiceBase.dispatchInterest
+	// the real link-service dispatch (fw/face/link-service.go dispatchInterest), then drain the thread queues
 	tid := fw.HashNameToFwThread(pkt.Name)
-	dispatch.GetFWThread(tid).QueueInterest(pkt)
-	for _, th := range wd.threads {
-		th.VerifDrain()
-	}
+	face.VerifFwDispatch(wd.scopeOf(faceID(f[1])), faceID(f[1]), pkt)
+	wd.drain()
 	wd.pf("ev int %d %s\n", now, strings.Join(f[1:], " "))
 	// picks: token of the PIT entry with this key (if any) in the thread the Interest went to
 	tok := "-"
@@ -379,11 +391,12 @@ func (wd *world) doInterest(f []string, line string) {
 		}
 	}
 	wd.pf("pick tok %s\n", tok)
+	wd.pf("pick thr %d\n", tid)
 }
 
 // data <face> <name> <fresh_ms|-> <tokhex|->
 func (wd *world) doData(f []string, line string) {
-	face, _ := strconv.ParseUint(f[1], 10, 64)
+	faceNo, _ := strconv.ParseUint(f[1], 10, 64)
 	name := parseName(f[2])
 	cfg := &ndn.DataConfig{ContentType: utils.IdPtr(ndn.ContentTypeBlob)}
 	if opt(f[3]) {
@@ -399,43 +412,50 @@ func (wd *world) doData(f []string, line string) {
 	if err != nil || p.Data == nil {
 		panic(fmt.Sprint("data did not parse: ", err))
 	}
-	pkt := &defn.Pkt{Name: p.Data.NameV, L3: p, Raw: raw, IncomingFaceID: utils.IdPtr(face)}
+	pkt := &defn.Pkt{Name: p.Data.NameV, L3: p, Raw: raw, IncomingFaceID: utils.IdPtr(faceNo)}
 	if opt(f[4]) {
 		pkt.PitToken = unhx(f[4])
 	}
 	now := wd.now()
-	wd.dispatchData(pkt, face)
-	for _, th := range wd.threads {
-		th.VerifDrain()
+	if len(pkt.PitToken) == 6 && int(binary.BigEndian.Uint16(pkt.PitToken)) == len(wd.threads) {
+		// dispatch.GetFWThread(len) indexes out of range in the pinned tree (property C04): not exercised, the packet is not delivered
+	} else {
+		face.VerifFwDispatch(wd.scopeOf(faceNo), faceNo, pkt)
 	}
+	got := wd.drain()
 	wd.pf("ev data %d %s\n", now, strings.Join(f[1:], " "))
+	ths := []string{}
+	for k, n := range got {
+		if n > 0 {
+			ths = append(ths, strconv.Itoa(k))
+		}
+	}
+	if len(ths) == 0 {
+		ths = []string{"-"}
+	}
+	wd.pf("pick thrs %s\n", strings.Join(ths, ","))
 }
 
-// dispatchData mirrors linkServiceBase.dispatchData (fw/face/link-service.go) with the real dispatch/fw functions.
-func (wd *world) dispatchData(pkt *defn.Pkt, face uint64) {
-	if len(pkt.PitToken) == 6 {
-		tid := int(binary.BigEndian.Uint16(pkt.PitToken))
-		if tid == len(wd.threads) {
-			// dispatch.GetFWThread(len) indexes out of range in the pinned tree (property C04); not exercised here
-			return
-		}
-		th := dispatch.GetFWThread(tid)
-		if th == nil {
-			return
-		}
-		th.QueueData(pkt)
-		return
+func faceID(s string) uint64 {
+	id, _ := strconv.ParseUint(s, 10, 64)
+	return id
+}
+
+func (wd *world) scopeOf(id uint64) defn.Scope {
+	if rf := wd.faces[id]; rf != nil {
+		return rf.scope
 	}
-	rf := wd.faces[face]
-	if rf != nil && rf.scope == defn.Local {
-		for i, m := range fw.HashNameToAllPrefixFwThreads(pkt.Name) {
-			if m {
-				dispatch.GetFWThread(i).QueueData(pkt)
-			}
-		}
-		return
+	return defn.NonLocal
+}
+
+// drain processes the queued packets thread by thread (ascending), tagging the sends with the thread
+func (wd *world) drain() []int {
+	got := make([]int, len(wd.threads))
+	for k, th := range wd.threads {
+		wd.cur = k
+		got[k] = th.VerifDrain()
 	}
-	dispatch.GetFWThread(fw.HashNameToFwThread(pkt.Name)).QueueData(pkt)
+	return got
 }
 
 // ---------------------------------------------------------------------------------------------------------------
@@ -447,10 +467,10 @@ func (wd *world) rel(t int64) string {
 }
 
 func (wd *world) observe() {
-	// sends, as a sorted multiset
+	// sends, as a sorted multiset, tagged with the forwarding thread that made them
 	ss := make([]string, len(wd.log))
 	for i, s := range wd.log {
-		ss[i] = fmt.Sprintf("%d %s %s %s %s", s.face, s.kind, s.name, s.hop, s.tok)
+		ss[i] = fmt.Sprintf("%d %d %s %s %s %s", s.thr, s.face, s.kind, s.name, s.hop, s.tok)
 		if s.kind == "I" {
 			wd.emitted = append(wd.emitted, s)
 		}
@@ -459,7 +479,12 @@ func (wd *world) observe() {
 	for _, s := range ss {
 		wd.pf("out %s\n", s)
 	}
-	th := wd.threads[0]
+	for k, th := range wd.threads {
+		wd.observeThread(k, th)
+	}
+}
+
+func (wd *world) observeThread(k int, th *fw.Thread) {
 	pc := th.VerifPitCs().(*table.PitCsTree)
 	// PIT
 	ents := pc.VerifDumpPit()
@@ -504,9 +529,9 @@ func (wd *world) observe() {
 			sb.WriteString("|BAD")
 		}
 	}
-	wd.pf("pit%s\n", sb.String())
+	wd.pf("pit %d%s\n", k, sb.String())
 	np, nt, nq := pc.VerifPitCounters()
-	wd.pf("pitn %d %d %d\n", np, nt, nq)
+	wd.pf("pitn %d %d %d %d\n", k, np, nt, nq)
 	// CS
 	cs := pc.VerifDumpCs()
 	cl := make([]string, len(cs))
@@ -514,7 +539,7 @@ func (wd *world) observe() {
 		cl[i] = nameStr(c.Name) + ":" + wd.rel(c.Stale)
 	}
 	sort.Strings(cl)
-	wd.pf("cs %s\n", strings.Join(cl, " "))
+	wd.pf("cs %d %s\n", k, strings.Join(cl, " "))
 	// dead nonce list: size and membership of the probe set
 	dn := th.VerifDeadNonceList()
 	n1, _ := dn.VerifLen()
@@ -528,7 +553,7 @@ func (wd *world) observe() {
 		}
 	}
 	sort.Strings(hits)
-	wd.pf("dnl %d %s\n", n1, strings.Join(hits, " "))
+	wd.pf("dnl %d %d %s\n", k, n1, strings.Join(hits, " "))
 }
 
 func b01(b bool) string {
@@ -551,6 +576,8 @@ type gen struct {
 	local  map[uint64]bool
 	wd     *world
 	kinds  map[string]int
+	prev   [][]string // fields of earlier generated Interests: face name cbp mbf nonce life hop hints tok nhf
+	base   string
 }
 
 func buildUniverse(r *rand.Rand) []string {
@@ -591,12 +618,45 @@ func (g *gen) extend(n string) string {
 	return g.pick(c)
 }
 
+func (g *gen) otherNonce(x string) string {
+	for i := 0; i < 8; i++ {
+		y := strconv.FormatUint(uint64(g.nonces[g.r.Intn(len(g.nonces))]), 10)
+		if y != x {
+			return y
+		}
+	}
+	return x
+}
+
 func (g *gen) interest() string {
+	// variations of an earlier Interest: retransmission (new nonce / same nonce), the same nonce from another face (loop),
+	// the same name from another face (aggregation)
+	if len(g.prev) > 0 && g.r.Intn(100) < 42 {
+		p := append([]string{}, g.prev[g.r.Intn(len(g.prev))]...)
+		switch g.r.Intn(8) {
+		case 0, 1, 2:
+			p[4] = g.otherNonce(p[4])
+		case 3:
+		case 4, 5:
+			p[0] = strconv.FormatUint(g.face(), 10)
+		default:
+			p[0] = strconv.FormatUint(g.face(), 10)
+			p[4] = g.otherNonce(p[4])
+		}
+		if g.r.Intn(4) == 0 {
+			p[8] = g.pick([]string{"-", "0000aa000102", "01070707", "0102030405060708"})
+		}
+		if g.r.Intn(5) == 0 {
+			p[5] = g.pick([]string{"-", "50", "1000", "10000"})
+		}
+		g.prev = append(g.prev, p)
+		return "int " + strings.Join(p, " ")
+	}
 	n := g.name()
 	cbp := b01(g.r.Intn(3) == 0)
 	mbf := b01(g.r.Intn(4) == 0)
 	nonce := "-"
-	if g.r.Intn(30) != 0 {
+	if g.r.Intn(40) != 0 {
 		nonce = strconv.FormatUint(uint64(g.nonces[g.r.Intn(len(g.nonces))]), 10)
 	}
 	life := "-"
@@ -613,9 +673,11 @@ func (g *gen) interest() string {
 		}
 	}
 	hop := "-"
-	switch g.r.Intn(8) {
+	switch g.r.Intn(12) {
 	case 0:
-		hop = "0"
+		if g.r.Intn(2) == 0 {
+			hop = "0"
+		}
 	case 1:
 		hop = "1"
 	case 2:
@@ -643,10 +705,12 @@ func (g *gen) interest() string {
 		tok = "0102030405060708"
 	}
 	nhf := "-"
-	if g.r.Intn(9) == 0 {
+	if g.r.Intn(12) == 0 {
 		nhf = strconv.FormatUint(g.face(), 10)
 	}
-	return fmt.Sprintf("int %d %s %s %s %s %s %s %s %s %s", g.face(), n, cbp, mbf, nonce, life, hop, hints, tok, nhf)
+	p := []string{strconv.FormatUint(g.face(), 10), n, cbp, mbf, nonce, life, hop, hints, tok, nhf}
+	g.prev = append(g.prev, p)
+	return "int " + strings.Join(p, " ")
 }
 
 func (g *gen) data() string {
@@ -680,7 +744,10 @@ func (g *gen) data() string {
 		case 6:
 			b := unhx(s.tok)
 			if len(b) == 6 {
-				b[1] = byte(2 + g.r.Intn(3)) // our entry token under another thread id (never 1: see dispatchData)
+				b[1] = byte(g.wd.nthr + 1 + g.r.Intn(3)) // our entry token under a thread id that does not exist (never the thread count itself: see doData)
+				if g.wd.nthr > 1 && g.r.Intn(2) == 0 {
+					b[1] = byte((int(unhx(s.tok)[1]) + 1) % g.wd.nthr) // ... or under another existing thread
+				}
 				tok = hex.EncodeToString(b)
 			}
 		case 7:
@@ -737,6 +804,12 @@ func (g *gen) setup() []string {
 	if g.r.Intn(2) == 0 {
 		ops = append(ops, fmt.Sprintf("fib ins /8.0 %d %d", g.face(), g.r.Intn(3)))
 	}
+	// routes for the cluster of hot names, often several next hops with equal or different costs
+	if g.r.Intn(5) != 0 {
+		for i := 0; i <= g.r.Intn(3); i++ {
+			ops = append(ops, fmt.Sprintf("fib ins %s %d %d", g.base, g.faces[g.r.Intn(len(g.faces))], g.r.Intn(3)))
+		}
+	}
 	for i := 0; i < g.r.Intn(3); i++ {
 		ops = append(ops, fmt.Sprintf("strat set %s %d", g.pick(g.names), g.r.Intn(2)))
 	}
@@ -762,12 +835,12 @@ func (g *gen) next() string {
 	case x < 72:
 		return g.data()
 	case x < 82:
-		ds := []int64{1000000, 100000000, 300000000, 600000000, 2000000000, 5000000000}
+		ds := []int64{1000000, 1000000, 100000000, 100000000, 300000000, 600000000, 2000000000, 5000000000}
 		return fmt.Sprintf("sleep %d", ds[g.r.Intn(len(ds))])
 	case x < 90:
-		return "tick"
+		return fmt.Sprintf("tick %d", g.r.Intn(g.wd.nthr))
 	case x < 93:
-		return "sweep"
+		return fmt.Sprintf("sweep %d", g.r.Intn(g.wd.nthr))
 	case x < 95:
 		if g.r.Intn(2) == 0 {
 			return fmt.Sprintf("fib ins %s %d %d", g.pick(g.names), g.face(), g.r.Intn(4))
@@ -795,13 +868,36 @@ func (g *gen) next() string {
 // driver
 // ---------------------------------------------------------------------------------------------------------------
 
+func prefixClosure(names []string) []string {
+	seen := map[string]bool{}
+	out := []string{}
+	for _, n := range names {
+		nm := parseName(n)
+		for k := 0; k <= len(nm); k++ {
+			p := nameStr(nm[:k])
+			if !seen[p] {
+				seen[p] = true
+				out = append(out, p)
+			}
+		}
+	}
+	sort.Strings(out)
+	return out
+}
+
 func header(wd *world, k int, names []string, nonces []uint32) {
 	wd.pf("case %d\n", k)
 	xs := make([]string, len(nonces))
 	for i, x := range nonces {
 		xs[i] = strconv.FormatUint(uint64(x), 10)
 	}
-	wd.pf("cfg threads=1 tid=0 dnl=6000000000 cscap=1024 region=%s\n", regionName)
+	wd.pf("cfg threads=%d dnl=6000000000 cscap=1024 region=%s\n", wd.nthr, regionName)
+	// the thread HashNameToFwThread selects for every name of the universe and every prefix of one
+	hs := []string{}
+	for _, n := range prefixClosure(names) {
+		hs = append(hs, fmt.Sprintf("%s=%d", n, fw.HashNameToFwThread(parseName(n))))
+	}
+	wd.pf("hash %s\n", strings.Join(hs, " "))
 	wd.pf("probe %s ; %s\n", strings.Join(names, " "), strings.Join(xs, " "))
 	wd.probeN = names
 	wd.probeX = nonces
@@ -852,7 +948,12 @@ func TestTrace(t *testing.T) {
 		}
 		for k, ops := range cases {
 			synctest.Test(t, func(t *testing.T) {
-				wd := newWorld(w, 1)
+				nt := 1
+				if len(ops) > 0 && strings.HasPrefix(ops[0], "threads ") {
+					nt, _ = strconv.Atoi(strings.Fields(ops[0])[1])
+					ops = ops[1:]
+				}
+				wd := newWorld(w, nt)
 				header(wd, k, universe, pool)
 				for _, op := range ops {
 					wd.exec(normalizeOp(op))
@@ -866,10 +967,15 @@ func TestTrace(t *testing.T) {
 
 	for k := 0; k < n; k++ {
 		synctest.Test(t, func(t *testing.T) {
-			wd := newWorld(w, 1)
+			nt := 1
+			if r.Intn(2) == 0 {
+				nt = 2 + r.Intn(3)
+			}
+			wd := newWorld(w, nt)
 			g := &gen{r: r, names: universe, wd: wd}
 			// hot names: a small shared-prefix cluster so that PIT entries collide, aggregate and multi-match
 			base := g.pick([]string{"/8.1", "/8.1/8.2", "/8.0/8.4", "/8.0", "/8.2", "/"})
+			g.base = base
 			for _, m := range universe {
 				if base == "/" || m == base || strings.HasPrefix(m, base+"/") {
 					g.hot = append(g.hot, m)
@@ -907,7 +1013,10 @@ func normalizeOp(l string) string {
 			f = append([]string{f[0]}, f[2:]...)
 		}
 	case "tick", "sweep":
-		f = f[:1]
+		// recorded: tick <thread> <now>; operation: tick <thread>; old corpus: tick
+		if len(f) >= 2 {
+			f = f[:2]
+		}
 	}
 	return strings.Join(f, " ")
 }
